@@ -7,7 +7,8 @@
 //	run <tee> <explicit> <domain> <remote> <state0> <rr> <rt> <others> <clear> <prot> <oracle>  -> <trace> <outcome>
 //	sni <explicit> <sessions>                                      -> <names>
 //
-// tee: 0 off, 1 TeeIn, 2 TeeOut, 3 both (the model only distinguishes 0 / not 0).
+// tee: tee variant + 4 * connection kind.  Tee variant: 0 off, 1 TeeIn, 2 TeeOut, 3 both (the
+// model only distinguishes 0 / not 0); connection kind: see connKinds in scenario.go.
 // explicit: StartTLS(cfg) with ServerName explicit.example / StartTLS(nil).
 // domain: index of the domainpart of the session's own address (origin);
 // remote: of the remote address (location) — equal or different.
@@ -55,6 +56,9 @@ func it(id int, req bool) item { return item{id: id, req: req, ok: true} }
 func secureCompliant(sc scenario) bool {
 	if sc.state0&uint8(xmpp.Secure|xmpp.Ready|xmpp.Received) != 0 {
 		return false
+	}
+	if sc.ck == 3 {
+		return false // a *tls.Conn: the connection is already secure
 	}
 	for _, o := range sc.others {
 		if o.id == idSASL || o.id == idBind {
@@ -130,7 +134,7 @@ func (c *ctx) flags() string {
 }
 
 func (c *ctx) line(sc scenario, res result) string {
-	return fmt.Sprintf("run %d %s %d %d %d %s %s %s %s %s %s", sc.tee, common.B(sc.explicit), sc.domain, sc.remote, sc.state0, common.B(c.rr), c.flags(),
+	return fmt.Sprintf("run %d %s %d %d %d %s %s %s %s %s %s", sc.tee+4*sc.ck, common.B(sc.explicit), sc.domain, sc.remote, sc.state0, common.B(c.rr), c.flags(),
 		sc.othersField(), sc.clearField(), sc.protField(), res.oracleField())
 }
 
@@ -172,6 +176,9 @@ func (c *ctx) check(sc scenario, tees []int, class string) (base result) {
 		// session's own address": the server name offered is the domainpart of the session's
 		// OWN address (origin), not of the remote one (location), whatever else is configured
 		for _, n := range res.sni {
+			if sc.ck == 3 {
+				break // the handshake is the connection's own, not STARTTLS's
+			}
 			wantN := domains[sc.domain]
 			if sc.explicit {
 				wantN = "explicit.example"
@@ -182,6 +189,32 @@ func (c *ctx) check(sc scenario, tees []int, class string) (base result) {
 					k = "single/names-remote-address"
 				}
 				r.Fail("servername", k, lines, fmt.Sprintf("the server name offered is %q; it must be the domainpart of the session's own address %s: %q (remote address: %s)", n, sc.originStr(), wantN, domains[sc.remote]))
+			}
+		}
+		// `Secure` in State() implies TLS observable at the peer: whatever the connection is
+		// (a wrapper with a ConnectionState() method is not TLS), a session that says Secure
+		// has sent a ClientHello, and nothing it writes afterwards is readable on the wire
+		scriptedSecure := false // an instrumented feature was told to return the Secure bit itself
+		for _, p := range res.picks {
+			if p.id != 0 && p.res.mask&uint8(xmpp.Secure) != 0 {
+				scriptedSecure = true
+			}
+		}
+		if strings.HasPrefix(res.outcome, "done.") && res.state&uint8(xmpp.Secure) != 0 && !scriptedSecure {
+			f := strings.Split(res.outcome, ".")
+			if len(res.sni) == 0 || len(f) < 3 || f[2] != "1" {
+				r.Fail("secure-without-tls", teeK+"/"+connKinds[sc.ck], lines, fmt.Sprintf("State() has Secure on a %s, but the peer saw %d ClientHello(s) and the probe written through the session %s", connKinds[sc.ck], len(res.sni), map[bool]string{true: "is protected", false: "is readable in clear text on the wire"}[len(f) >= 3 && f[2] == "1"]))
+			}
+		}
+		if sc.ck == 3 {
+			// already secure: nothing at all in clear text, no STARTTLS
+			if len(res.clearEv) > 0 {
+				r.Fail("clear-writes", teeK+"/tls-conn", lines, fmt.Sprintf("clear-text writes %v on a *tls.Conn", res.clearEv))
+			}
+			for _, e := range res.protEv {
+				if e == "s" {
+					r.Fail("starttls-on-secure-connection", teeK, lines, "STARTTLS requested on a connection that is already a *tls.Conn")
+				}
 			}
 		}
 		if !compliant {
@@ -544,6 +577,28 @@ func (c *ctx) corpus(tees []int) {
 	after(a1, list(it(3, false), it(1, false)), negRes{mask: 2}, negRes{mask: 0}) // 3 prohibited once Authn
 	after(a1, list(it(3, true), it(1, false)), negRes{mask: 2}, negRes{mask: 0})
 	after([]other{{id: 1, nec: 1, negotiable: true}, {id: 2, nec: 3, negotiable: false}}, list(it(1, false), it(2, true)), negRes{mask: 2}) // informational
+	// 8. what makes a session start Secure: every kind of connection.  STARTTLS required next to
+	// SASL PLAIN (the real feature: its <auth/> carries the password), next to an instrumented
+	// feature, an empty list, STARTTLS alone; on a *tls.Conn the same lists arrive inside TLS.
+	for ck := range connKinds {
+		for _, l := range []unit{list(it(0, true), sa), list(sa), list(it(0, true), sa, bd), list()} {
+			sc := scenario{ck: ck, others: bi, clear: [][]unit{{hdr(true), l}, {u('P')}}, prot: []pu{{u: hdr(true)}, {u: list()}}, domain: 2, remote: 2}
+			if ck == 3 {
+				sc.clear, sc.prot = nil, []pu{{u: hdr(true)}, {u: list()}}
+			}
+			for k := 0; k < 3; k++ {
+				c.check(sc, tees, "corpus-conn-kinds")
+			}
+		}
+		for _, l := range []unit{list(it(0, true), it(1, true)), list(it(1, true)), list(it(0, false), it(1, false)), list(it(0, true))} {
+			sc := scenario{ck: ck, others: []other{{id: 1, nec: 1, negotiable: true}}, clear: [][]unit{{hdr(true), l}, {u('P')}},
+				prot: []pu{{u: hdr(true)}, {u: list(it(1, true))}, {u: list()}}, results: []negRes{{mask: 2}, {mask: 0}}, domain: 1, remote: 3}
+			if ck == 3 {
+				sc.clear = nil
+			}
+			c.check(sc, tees, "corpus-conn-kinds")
+		}
+	}
 	// 5. clear text pipelined behind <proceed/>
 	c.pipelined(scenario{clear: [][]unit{{hdr(true), list(it(0, true))}, {u('P')}}, prot: []pu{{u: hdr(true)}, {u: list()}}},
 		[]unit{hdr(true), list()}, tees, "corpus")
@@ -595,7 +650,7 @@ func (c *ctx) exhaustive(tees []int) {
 							continue
 						}
 						sc := scenario{others: []other{f1}, clear: segs(one, h, f, a), prot: p,
-							results: []negRes{{mask: 2}, {mask: 0}}, domain: n % 4, remote: (n / 4) % 4, explicit: n%3 == 0}
+							results: []negRes{{mask: 2}, {mask: 0}}, domain: n % 4, remote: (n / 4) % 4, explicit: n%3 == 0, ck: (n / 2) % 3}
 						if n%2 == 1 {
 							sc = useFeature2(sc, f2)
 						}
@@ -669,6 +724,8 @@ func (c *ctx) random(n int, tees []int) {
 		if rnd.Bool() {
 			sc.remote = rnd.Intn(4)
 		}
+		sc.ck = rnd.Intn(3)
+		tlsConn := rnd.Chance(1, 8)
 		if rnd.Chance(1, 6) {
 			sc.state0 = []uint8{2, 64, 66}[rnd.Intn(3)] // Authn, S2S
 		}
@@ -760,6 +817,13 @@ func (c *ctx) random(n int, tees []int) {
 			}
 		}
 		sc.clear = clear
+		if tlsConn {
+			// the session is created on a *tls.Conn: everything the peer says is inside TLS
+			sc.ck = 3
+			if rnd.Chance(3, 4) {
+				sc.clear = nil
+			}
+		}
 		if rnd.Chance(1, 3) {
 			// some units arrive split across two reads
 			sc.split = make([]int, len(clear))
@@ -836,6 +900,11 @@ func (c *ctx) deep(n int, tees []int) {
 		sc.clear = [][]unit{{hdr(true), list(it(0, !rnd.Chance(1, 5)))}, {u('P')}}
 		if rnd.Chance(1, 3) {
 			sc.clear = [][]unit{{hdr(true), list()}, {u('P')}} // forced attempt
+		}
+		sc.ck = rnd.Intn(3)
+		if rnd.Chance(1, 6) {
+			sc.ck = 3
+			sc.clear = nil
 		}
 		needHdr := true
 		rounds := 1 + rnd.Intn(4)
@@ -959,6 +1028,24 @@ func Run(r *common.Run) error {
 	return nil
 }
 
+// setsSecure: does the block contain `<x>.state |= Secure`?
+func setsSecure(b *ast.BlockStmt) bool {
+	found := false
+	ast.Inspect(b, func(n ast.Node) bool {
+		as, ok := n.(*ast.AssignStmt)
+		if !ok || as.Tok != token.OR_ASSIGN || len(as.Lhs) != 1 || len(as.Rhs) != 1 {
+			return true
+		}
+		l, ok1 := as.Lhs[0].(*ast.SelectorExpr)
+		r, ok2 := as.Rhs[0].(*ast.Ident)
+		if ok1 && ok2 && l.Sel.Name == "state" && r.Name == "Secure" {
+			found = true
+		}
+		return true
+	})
+	return found
+}
+
 // Facts regenerates lean/XmppModel/Generated/C02.lean: the bit values of the
 // session-state constants and the masks of the real xmpp.StartTLS feature
 // (evaluated on the linked library), and two shapes read from the source with
@@ -1018,6 +1105,37 @@ func Facts(repo string) (string, error) {
 		}
 	}
 	fmt.Fprintf(&sb, "/-- does the body of `StartTLS` (starttls.go) assign to its configuration parameter? -/\ndef startTLSAssignsCapturedConfig : Option Bool := %s\n", assigned)
+
+	// session.go negotiateSession: the if statement that ORs Secure into the state before any
+	// negotiation — is its condition a type assertion to *tls.Conn?
+	asserts := "none"
+	if f, err := parser.ParseFile(fset, filepath.Join(repo, "session.go"), nil, 0); err == nil {
+		for _, d := range f.Decls {
+			fd, ok := d.(*ast.FuncDecl)
+			if !ok || fd.Name.Name != "negotiateSession" || fd.Body == nil {
+				continue
+			}
+			for _, st := range fd.Body.List { // top level of the function only: before the loop
+				is, ok := st.(*ast.IfStmt)
+				if !ok || !setsSecure(is.Body) {
+					continue
+				}
+				asserts = "some false"
+				if as, ok := is.Init.(*ast.AssignStmt); ok && len(as.Rhs) == 1 {
+					if ta, ok := as.Rhs[0].(*ast.TypeAssertExpr); ok {
+						if star, ok := ta.Type.(*ast.StarExpr); ok {
+							if sel, ok := star.X.(*ast.SelectorExpr); ok {
+								if pkg, ok := sel.X.(*ast.Ident); ok && pkg.Name == "tls" && sel.Sel.Name == "Conn" {
+									asserts = "some true"
+								}
+							}
+						}
+					}
+				}
+			}
+		}
+	}
+	fmt.Fprintf(&sb, "/-- session.go `negotiateSession`: the statement that sets `Secure` before the negotiation\nstarts is guarded by a type assertion to `*tls.Conn` -/\ndef initialSecureAssertsTLSConn : Option Bool := %s\n", asserts)
 
 	usesData := "none"
 	if f, err := parser.ParseFile(fset, filepath.Join(repo, "negotiator.go"), nil, 0); err == nil {
